@@ -49,6 +49,8 @@ def entries(mat):
     raw_nnz = int(mat.nnz)            # stored coefficients as returned (duplicates of a coo matrix and explicit zeros included)
     co = sp.coo_matrix(mat)
     raw_zeros = int(np.sum(co.data == 0))
+    pos = list(zip(co.row.tolist(), co.col.tolist()))
+    dups = len(pos) - len(set(pos))   # stored coefficients sharing a position (several entries for one incidence)
     co.sum_duplicates()
     cplx = np.iscomplexobj(co.data)
     out = []
@@ -70,7 +72,7 @@ def entries(mat):
         except Exception:  # noqa
             pass
     return {"shape": [int(mat.shape[0]), int(mat.shape[1])], "ent": out, "complex": bool(cplx), "nnz": raw_nnz,
-            "stored_zeros": raw_zeros,
+            "stored_zeros": raw_zeros, "dups": dups,
             "format": type(mat).__name__}
 
 
@@ -119,6 +121,23 @@ def call(fn, fixed, opts, form, fmt=False):
     return fn(*fixed, **kw)
 
 
+def free_form(name, form):
+    """the call uses a representation the property text does not speak about (flag as int / numpy.bool_, numpy weight or key
+    types, an explicit scipy format name): a refusal is then as acceptable as a correct answer"""
+    base = name.partition(":")[0]
+    if base in ("glap", "v2f", "vollap", "tetlap", "gag", "bad"):
+        return False
+    if base == "adj":
+        return name == "adj:custom" and form % 4 != 0
+    if form % 4 in (1, 2):
+        return True
+    if base in ("massv", "massf", "massvv", "massvc") and (form // 12) % 6 in (1, 2, 3, 4):
+        return True
+    if base in ("massv", "massvv", "massvc") and (form + 1) % 4 in (1, 2):
+        return True
+    return False
+
+
 def run_op(case, name, mesh=None, form=0):
     import mouette as M
     from mouette import operators as O
@@ -133,10 +152,8 @@ def run_op(case, name, mesh=None, form=0):
             elif arg == "meshtype":
                 (O.volume_laplacian if case["kind"] != "volume" else O.laplacian)(mesh)
             else:
-                raise ValueError(arg)
-        except ValueError:
-            raise
-        except Exception as ex:  # noqa
+                return {"error": "unknown refused-call kind " + arg}
+        except Exception as ex:  # noqa   (the class is recorded for information only)
             return {"raised": type(ex).__name__}
         return {"raised": None}
     if base == "lap":
@@ -213,12 +230,26 @@ def snapshot(mesh):
             a = c.get_attribute(name)
             d = getattr(a, "_data", None)
             if isinstance(d, np.ndarray):
-                snap["%s/%s" % (cname, name)] = (d.dtype.str, d.shape, d.tobytes())
+                snap["%s/%s" % (cname, name)] = d.copy()
             elif isinstance(d, dict):
                 snap["%s/%s" % (cname, name)] = repr(sorted((repr(k), np.asarray(v).tolist()) for k, v in d.items()))
             else:
                 snap["%s/%s" % (cname, name)] = repr(d)
     return snap
+
+
+def same_blob(a, b):
+    """stored data unchanged: numeric arrays up to the house tolerance 1e-9 (1 + |x|) (an equivalent recomputation of a cached
+    attribute is free), everything else exactly"""
+    if isinstance(a, np.ndarray):
+        if not isinstance(b, np.ndarray) or a.shape != b.shape:
+            return False
+        if a.dtype.kind in "fc" and b.dtype.kind in "fc":
+            with np.errstate(all="ignore"):
+                ok = (np.abs(a - b) <= 1e-9 * (1 + np.abs(a))) | ((a == b)) | (np.isnan(a) & np.isnan(b))
+            return bool(np.all(ok))
+        return bool(np.array_equal(a, b))
+    return a == b
 
 
 def run_pre(mesh, name):
@@ -266,7 +297,8 @@ def run_sequence(case, res):
             r = {"error": "%s: %s" % (type(ex).__name__, ex)}
         after = snapshot(mesh)
         r["op"] = name
-        r["mutated"] = sorted(k for k in before if after.get(k) != before[k])
+        r["free_form"] = free_form(name, form)
+        r["mutated"] = sorted(k for k in before if not same_blob(before[k], after.get(k)))
         steps.append(r)
     res["steps"] = steps
 
@@ -308,6 +340,7 @@ def run_case_(case):
                 res["outs"][name] = run_op(case, name, None, form)
         except Exception as ex:  # noqa
             res["outs"][name] = {"error": "%s: %s" % (type(ex).__name__, ex)}
+        res["outs"][name]["free_form"] = free_form(name, form)
     return res
 
 
